@@ -8,7 +8,7 @@
       [me_events], [me_start] (start_step), [me_end] (end_step), [me_spb] (steps_per_bar),
       [me_spq] (steps_per_quarter).
     - [mel_from_quantized p s : res mel_result]; errors: E_QSTATUS, E_NONINT, E_POLY, E_BADNOTE.
-    - [mel_candidates], [mel_add_note], [mel_last_on_off], [mel_loop] are the passes of the code.
+    - [mel_candidates], [mel_set_length], [mel_add_note], [mel_last_on_off], [mel_loop] are the passes of the code.
 
     The model follows the code AFTER notes/C07-fix-3.diff (F15): drum and zero-velocity
     notes are removed before the first bar is computed.  (In the unpatched code the first
@@ -36,12 +36,28 @@ Definition mel_keep (p : mel_params) (n : note) : bool :=
 Definition mel_candidates (p : mel_params) (ns : list note) : list note :=
   isort mel_le (filter (mel_keep p) ns).
 
+(** Melody.set_length (overrides SimpleEventSequence.set_length): when the melody is extended on
+    the right, a note still sustained at the old end is ended — scanning back from the old last
+    event, if a pitch is met before any NOTE_OFF, the first new event becomes NOTE_OFF. *)
+Fixpoint mel_sustained (rev_evs : list Z) : bool :=
+  match rev_evs with
+  | [] => false
+  | e :: r => if e =? MELODY_NOTE_OFF then false
+              else if e =? MELODY_NO_EVENT then mel_sustained r else true
+  end.
+
+Definition mel_set_length (n : Z) (evs : list Z) : list Z :=
+  if len evs <? n then
+    if mel_sustained (rev evs) then evs ++ MELODY_NOTE_OFF :: zrepeat MELODY_NO_EVENT (n - len evs - 1)
+    else evs ++ zrepeat MELODY_NO_EVENT (n - len evs)
+  else zfirstn n evs.
+
 (** Melody._add_note: set_length(end+1); events[start] = pitch; events[end] = NOTE_OFF;
     events[start+1 .. end-1] = NO_EVENT.  All of [start..end] is overwritten, so the result is
     the first [start] events of the re-sized list followed by the new note (start >= 0). *)
 Definition mel_add_note (pitch s e : Z) (evs : list Z) : res (list Z) :=
   if e <=? s then Err E_BADNOTE
-  else Ok (zfirstn s (set_length MELODY_NO_EVENT (e + 1) evs)
+  else Ok (zfirstn s (mel_set_length (e + 1) evs)
            ++ pitch :: zrepeat MELODY_NO_EVENT (e - s - 1) ++ [MELODY_NOTE_OFF]).
 
 (** Melody._get_last_on_off_events: scan from the right; [l] is the reversed event list,
@@ -101,6 +117,6 @@ Definition mel_from_quantized (p : mel_params) (s : seq) : res mel_result :=
       | _ :: _ =>
           let evs1 := mel_strip evs in
           let n := if mp_pad_end p then pad_len (len evs1) spb else len evs1 in
-          Ok (mkMelResult (set_length MELODY_NO_EVENT n evs1) mss (mss + n) spb (s_spq s))
+          Ok (mkMelResult (mel_set_length n evs1) mss (mss + n) spb (s_spq s))
       end)
   end).
